@@ -1859,7 +1859,12 @@ fn digits_needed_for_base(n: f64, base: f64) -> usize {
             10.0 => n.abs().log10(),
             base => n.abs().log(base),
         };
-        log as usize + 1
+        let mut digits = log as usize + 1;
+        // The logarithm of an exact power of the base may come out just below the integer
+        if base > 1.0 && base.powi(digits.min(i32::MAX as usize) as i32) <= n.abs() {
+            digits += 1;
+        }
+        digits
     }
 }
 
